@@ -419,6 +419,12 @@ func (r ReferenceStorage) CheckAndSetReference(ref, old *plumbing.Reference) err
 		if tmp.Hash() != old.Hash() {
 			return storage.ErrReferenceHasChanged
 		}
+		// Symbolic references all have the zero hash: compare them by
+		// target, as the filesystem storage does.
+		if old.Type() == plumbing.SymbolicReference &&
+			(tmp.Type() != plumbing.SymbolicReference || tmp.Target() != old.Target()) {
+			return storage.ErrReferenceHasChanged
+		}
 	}
 	r[ref.Name()] = ref
 	return nil
